@@ -108,7 +108,8 @@ void done(scalar_stats_t& stats, const tensor_mem_t<uint8_t, 1>& enable_scaling 
         if (const auto N = stats.m_samples(i); N > 1)
         {
             const auto dN    = static_cast<scalar_t>(N);
-            stats.m_stdev(i) = std::sqrt((stats.m_stdev(i) - stats.m_mean(i) * stats.m_mean(i) / dN) / (dN - 1.0));
+            // NB: the one-pass formula can round (slightly) below zero for (nearly) constant columns!
+            stats.m_stdev(i) = std::sqrt(std::max(stats.m_stdev(i) - stats.m_mean(i) * stats.m_mean(i) / dN, 0.0) / (dN - 1.0));
             stats.m_mean(i) /= dN;
             stats.m_div_range(i) = 1.0 / std::max(stats.m_max(i) - stats.m_min(i), epsilon);
             stats.m_div_stdev(i) = 1.0 / std::max(stats.m_stdev(i), epsilon);
